@@ -162,6 +162,15 @@ static inline _Bool shim_cas_bool(_Bool *obj, _Bool *expected, _Bool desired, in
   if (*obj == *expected && !SHIM_CAS_FAILS(weak)) { *obj = desired; return 1; }
   *expected = *obj; return 0; }
 static inline _Bool shim_xchg_bool(_Bool *obj, _Bool v) { _Bool o = *obj; *obj = v; return o; }
+/* ---- roundf: cbmc 6.11's own model of roundf crashes symex after dfcc instrumentation ("l2_rename_rvalues case
+   floatbv_typecast not handled"); round half away from zero, exact: values of magnitude >= 2^23, NaN and infinities are
+   integral already / returned unchanged, below that the conversion to long is in range ---- */
+static inline float shim_roundf(float x) {
+  if (!(x > -8388608.0f && x < 8388608.0f)) return x;
+  long t = (long)x; float d = x - (float)t;        /* truncation and an exact remainder */
+  if (d >= 0.5f) t++; else if (d <= -0.5f) t--;
+  return (float)t; }
+#define roundf(x) shim_roundf(x)
 /* ---- std::hash<float> (libstdc++ functional_hash.h): 0 for +0.0f and -0.0f, otherwise a function of the object representation
    (the murmur mix is replaced by the identity on the bit pattern: any function of the bits serves, collisions are not claimed) ---- */
 static inline unsigned long shim_hash_float(float v) {
